@@ -42,16 +42,22 @@ pub fn media_type_of(lang: Lang) -> MediaType {
 /// Module info as the registry would embed it: produced by the real analyser
 /// from the file's source.
 pub fn embed_info(d: &ModuleDesc, bytes: &[u8], embed: Embed) -> Option<Value> {
-  if !d.lang.is_script() || d.unparsable {
-    return None;
-  }
-  let text = std::str::from_utf8(bytes).ok()?;
-  let text = text.strip_prefix('\u{feff}').unwrap_or(text);
   let url = ModuleSpecifier::parse(&d.url).ok()?;
   let analyzer = deno_graph::ast::ParserModuleAnalyzer::default();
-  let info = analyzer
-    .analyze_sync(&url, text.into(), media_type_of(d.lang))
-    .ok()?;
+  let wasm_dts;
+  let (text, mt): (&str, MediaType) = if d.lang == Lang::Wasm {
+    // what the builder's analyser is given for a Wasm module: the
+    // declaration text generated from it
+    wasm_dts = deno_graph::source::wasm::wasm_module_to_dts(bytes).ok()?;
+    (wasm_dts.as_str(), MediaType::Dmts)
+  } else {
+    if !d.lang.is_script() || d.unparsable {
+      return None;
+    }
+    let text = std::str::from_utf8(bytes).ok()?;
+    (text.strip_prefix('\u{feff}').unwrap_or(text), media_type_of(d.lang))
+  };
+  let info = analyzer.analyze_sync(&url, text.into(), mt).ok()?;
   let v = serde_json::to_value(&info).ok()?;
   match embed {
     Embed::None => None,
@@ -262,6 +268,29 @@ pub fn gen_registry_world(tape: &mut Tape, cfg: &RegGenCfg) -> World {
         }
         t.items.push(Item::new(Form::SideEffect, "./gone_below_template.ts"));
         files.insert("/template.ts".to_string(), t);
+      }
+      match tape.draw(Stream::World, 8) {
+        6 => {
+          // a Wasm file of the package imported at source phase only (an
+          // asset load without a `type` attribute): an external entry,
+          // whatever the manifest says about the file
+          modd.items.push(Item::new(Form::Source, "./phase.wasm"));
+          let mut t = ModuleDesc::new("", Lang::Wasm);
+          if has_util {
+            t.items.push(Item::new(Form::Default, "./util.ts"));
+          }
+          files.insert("/phase.wasm".to_string(), t);
+        }
+        7 => {
+          // a Wasm module of the package imported as a module
+          modd.items.push(Item::new(Form::Default, "./calc.wasm"));
+          let mut t = ModuleDesc::new("", Lang::Wasm);
+          if has_util {
+            t.items.push(Item::new(Form::Default, "./util.ts"));
+          }
+          files.insert("/calc.wasm".to_string(), t);
+        }
+        _ => {}
       }
       if tape.draw(Stream::World, 6) == 5 {
         // a sibling script imported at source phase only (an asset load
